@@ -345,7 +345,70 @@ func propDefaultTableEdits(c *Ctx) {
 	}
 }
 
+// "package-level shared values are read-only": every value a collection hands out after recycling (ClearValues, a variable
+// created without a value, a variable created for an expression) is the caller's to assign in place; doing so must not reach
+// the package-level null value, another variable, another collection or another calculator.
+func propSharedValuesReadOnly(c *Ctx) {
+	op := "sharedro clearvalues"
+	c.record(op, true)
+	st := safeCallT(5*time.Second, func() string {
+		mk := func() *variables.VariableCollection {
+			v := variables.NewVariableCollection()
+			v.Add(variables.NewVariable("x", variants.VariantFromInteger(1)))
+			v.Add(variables.NewVariable("y", variants.VariantFromInteger(2)))
+			v.Add(variables.NewVariable("z", nil))
+			return v
+		}
+		a, b := mk(), mk()
+		a.ClearValues()
+		b.ClearValues()
+		calc := calculator.NewExpressionCalculator()
+		if err := calc.SetExpression("p * 10 + q"); err != nil { // automatic variables p, q
+			return "parse-err"
+		}
+		cells := []*variants.Variant{a.FindByName("x").Value(), a.FindByName("y").Value(), a.FindByName("z").Value(), b.FindByName("x").Value(), b.FindByName("z").Value(),
+			calc.DefaultVariables().FindByName("p").Value(), calc.DefaultVariables().FindByName("q").Value()}
+		names := []string{"a.x", "a.y", "a.z", "b.x", "b.z", "calc.p", "calc.q"}
+		for i, cell := range cells {
+			if cell == nil {
+				return "the value of " + names[i] + " is nil"
+			}
+			if cell.Type() != variants.Null {
+				return "the cleared value of " + names[i] + " is not null"
+			}
+		}
+		for i, cell := range cells {
+			cell.SetAsInteger(100 + i) // the caller assigns in place
+			for j, other := range cells {
+				want := variants.Null
+				if j <= i {
+					want = variants.Integer
+				}
+				if other.Type() != want || (j <= i && other.AsInteger() != 100+j) {
+					return fmt.Sprintf("after assigning %d to %s in place, %s holds %s", 100+i, names[i], names[j], encVariant(other))
+				}
+			}
+			if variants.Empty.Type() != variants.Null {
+				return fmt.Sprintf("after assigning to %s in place, the package-level null value holds %s", names[i], encVariant(variants.Empty))
+			}
+		}
+		fresh := calculator.NewExpressionCalculator()
+		if err := fresh.SetExpression("w IS NULL"); err != nil {
+			return "parse-err"
+		}
+		if got := outcome(fresh.Evaluate()); got != "ok b1" {
+			return "afterwards a new calculator evaluates `w IS NULL` (w never assigned) to " + got
+		}
+		return ""
+	})
+	if st != "" {
+		c.fail(Failure{Kind: "oracle", Op: op, Impl: st, Note: "values handed out by ClearValues / automatic variables are assigned in place by the caller: " + st})
+	}
+	c.Notes = append(c.Notes, "recycled collections (ClearValues), valueless and automatic variables: in-place assignment to each handed-out value leaves the package-level null value, the other variables, collections and calculators untouched")
+}
+
 func propC19(c *Ctx) {
+	propSharedValuesReadOnly(c)
 	propScaleFunctionTables(c)
 	propDefaultTableEdits(c)
 	g := newExGen(c)
@@ -453,6 +516,10 @@ func propC19(c *Ctx) {
 func replayC19(c *Ctx, op string) {
 	if strings.HasPrefix(op, "deftable ") {
 		propDefaultTableEdits(c)
+		return
+	}
+	if strings.HasPrefix(op, "sharedro ") {
+		propSharedValuesReadOnly(c)
 		return
 	}
 	f := strings.Fields(op)
